@@ -237,6 +237,33 @@ def check_routing(p, route, sqlc, dbmlc, hist_len):
     p['outcomes'][f'routing/{route}/checked'] += 1
 
 
+def check_routing_no_tables(p, sqlc, dbmlc):
+    """a configured database that holds an enum, a project and a sticky note but no table"""
+    from pydbml import Database
+    from pydbml.classes import Enum, Project, StickyNote
+    kw = {}
+    if sqlc != 'default':
+        kw['sql_renderer'] = make_renderer('SQLX', sqlc)
+    if dbmlc != 'default':
+        kw['dbml_renderer'] = make_renderer('DBMLX', dbmlc)
+    db = Database(**kw)
+    els = [('enum', Enum('e', ['x'])), ('project', Project('p')), ('sticky', StickyNote('n', 'x'))]
+    for _, el in els:
+        db.add(el)
+    case0 = {'mode': 'routing-no-tables', 'sql': sqlc, 'dbml': dbmlc}
+    for label, el in els:
+        for which in ('sql', 'dbml'):
+            if which == 'sql' and not hasattr(type(el), 'sql'):
+                continue
+            exp = expected_text(el, which, True, kw)
+            got = observed_text(el, which)
+            p['evaluations'] += 1
+            if got != exp:
+                p['violations'].append(violation(PID, 'element-rendered-by-wrong-renderer', dict(case0, element=label, what=which), expected=exp[:200], observed=got[:200],
+                                                 detail=f'{label}.{which} in a database without tables: {got[:80]!r}, expected {exp[:80]!r}'))
+    p['outcomes']['routing/no-tables/checked'] += 1
+
+
 def never_attached(p):
     """objects that were never in any database use the default renderers"""
     from pydbml.classes import Column, Enum, Table, Project, StickyNote, TableGroup, Reference
@@ -284,9 +311,12 @@ def occurrences_at_boundary(text, part):
     return n, ok
 
 
-def check_once(p, m, case):
+def check_once(p, m, case, delete_first_table=False):
     try:
         db = builder.build(writer.expected(m))
+        if delete_first_table:
+            # the references that name the deleted table stay in the database and must still appear exactly once
+            db.delete(db.tables[0])
     except Exception as e:
         p['outcomes']['once/not-buildable(skipped)'] += 1
         return
@@ -386,6 +416,10 @@ def snapshot(db):
 def purity_db(route):
     m = c10.start_model()
     m['tables'][0]['columns'][1]['comment'] = 'a comment'
+    if route == 'api-inline-composite':
+        # only expressible through the API: DBML cannot write it inline (DBMLError, every time), SQL can
+        m['refs'][1]['inline'] = True
+        return builder.build(m)
     if route == 'api':
         return builder.build(m)
     from pydbml import PyDBML
@@ -466,6 +500,8 @@ def units(tier, seed):
     for route in ('api', 'parsed'):
         for first in range(ncalls):
             us.append(('purity', route, (first, b['purity_sequence_length'])))
+    for first in range(ncalls):
+        us.append(('purity', 'api-inline-composite', (first, 2)))
     return us
 
 
@@ -475,6 +511,8 @@ def work(unit):
     if mode == 'routing':
         for dbmlc in CONFIGS:
             check_routing(p, a, b, dbmlc, 3)
+            if a == ROUTES[0]:
+                check_routing_no_tables(p, b, dbmlc)
         p['samples'].append({'mode': 'routing', 'route': a, 'sql_renderer': b, 'dbml_renderers': CONFIGS})
     elif mode == 'never':
         never_attached(p)
@@ -487,6 +525,8 @@ def work(unit):
                 m, order, ok = c01.state_model(seq)
                 if ok:
                     check_once(p, m, {'mode': 'once', 'seq': list(seq)})
+                    if len(m['tables']) >= 2 and m['refs']:
+                        check_once(p, m, {'mode': 'once', 'seq': list(seq), 'after': 'delete(tables[0])'}, delete_first_table=True)
                     p['states'] += 1
                     p['traces'] += 1
                     p['nontrivial'].add(digest(['once', seq]))
@@ -519,7 +559,7 @@ def replay(case):
         never_attached(p)
     elif case['mode'] == 'once':
         m, order, ok = c01.state_model(tuple(case['seq']))
-        check_once(p, m, {'mode': 'once', 'seq': case['seq']})
+        check_once(p, m, {k: v for k, v in case.items() if k in ('mode', 'seq', 'after')}, delete_first_table='after' in case)
     else:
         firsts = {}
         ncalls = len(render_calls(purity_db('api')))
